@@ -67,9 +67,13 @@ Plan gen_c11(sk::Rng& r, Tier) {
         Op op;
         const auto c = r.below(100);
         const std::int64_t size = r.pick<std::int64_t>({0, 1, 63, 64, 65, 127, 128, 129, 1000, 4096, 70000});
-        if (c < 35) { op.k = "store_local"; op.a = {size, r.pick<std::int64_t>({0, 5, 600, 7200, 100000}), static_cast<std::int64_t>(r.below(1u << 20))}; }
-        else if (c < 55) { op.k = "replica"; op.a = {static_cast<std::int64_t>(r.below(2)), size, 0, static_cast<std::int64_t>(r.below(1u << 20)), static_cast<std::int64_t>(r.below(3))}; }
-        else if (c < 92) { op.k = "replica"; op.a = {static_cast<std::int64_t>(r.below(2)), size == 0 ? 64 : size, r.range(1, kTampers - 1), static_cast<std::int64_t>(r.below(1u << 20)), static_cast<std::int64_t>(r.below(3))}; }
+        // last argument of store_local / replica: 0 = a fresh chunk id, k > 0 = the id of the k-th chunk this run already placed on the
+        // node (a re-store, or a replica / forged manifest for a chunk the node holds)
+        const std::int64_t reuse = r.chance(1, 3) ? r.range(1, 6) : 0;
+        if (c < 32) { op.k = "store_local"; op.a = {size, r.pick<std::int64_t>({0, 5, 600, 7200, 100000}), static_cast<std::int64_t>(r.below(1u << 20)), reuse}; }
+        else if (c < 50) { op.k = "replica"; op.a = {static_cast<std::int64_t>(r.below(2)), size, 0, static_cast<std::int64_t>(r.below(1u << 20)), static_cast<std::int64_t>(r.below(3)), reuse}; }
+        else if (c < 82) { op.k = "replica"; op.a = {static_cast<std::int64_t>(r.below(2)), size == 0 ? 64 : size, r.range(1, kTampers - 1), static_cast<std::int64_t>(r.below(1u << 20)), static_cast<std::int64_t>(r.below(3)), reuse}; }
+        else if (c < 92) { op.k = "forge"; op.a = {static_cast<std::int64_t>(r.below(2)), r.range(1, 6), static_cast<std::int64_t>(r.below(5)), static_cast<std::int64_t>(r.below(1u << 20))}; }
         else { op.k = "reconnect"; op.a = {static_cast<std::int64_t>(r.below(2))}; }
         p.ops.push_back(op);
     }
@@ -91,6 +95,23 @@ void exec_c11(const Plan& p, Ctx& ctx) {
     auto pub = std::make_unique<en::Node>(make_id(0xB9, 0x29), cp);
     std::uint64_t uniq = 1;
     std::vector<std::size_t> consumed(static_cast<std::size_t>(npeers), 0);
+    // what the node legitimately holds: the payload of the latest local store / accepted replica per chunk id; `alt` is a second
+    // legitimate content (an intact replica of other content offered for an id the node already held: keeping either is fine)
+    struct Entry { en::ChunkId id; std::vector<std::uint8_t> payload, alt; bool has_alt = false; std::int64_t deadline = 0; };
+    std::vector<Entry> pool;
+    auto pool_find = [&](const en::ChunkId& id) -> Entry* { for (auto& e : pool) if (e.id == id) return &e; return nullptr; };
+    auto pool_pick = [&](std::int64_t sel) -> Entry* { return (sel > 0 && !pool.empty()) ? &pool[static_cast<std::size_t>(sel - 1) % pool.size()] : nullptr; };
+    auto recheck_all = [&](const std::string& after) {
+        for (auto& e : pool) {
+            if (sk::now_ns() + 3 * kSec >= e.deadline) continue;  // about to expire: C01's business
+            std::optional<en::ChunkData> got;
+            rig.node.run([&](en::Node& n) { got = n.fetch_chunk(e.id); });
+            ctx.probe("held_chunk_rechecked");
+            if (!got) { ctx.violate("C11.held_chunk_not_returned.after_" + after, fmt("fetch_chunk returns nothing for a live %zu-byte chunk the node holds (after a %s)", e.payload.size(), after.c_str())); continue; }
+            if (*got == e.payload || (e.has_alt && *got == e.alt)) continue;
+            ctx.violate("C11.held_chunk_wrong_bytes.after_" + after, fmt("fetch_chunk returns %zu bytes that are neither the %zu-byte payload last stored for the chunk nor an intact replica offered for it (after a %s)", got->size(), e.payload.size(), after.c_str()));
+        }
+    };
 
     auto check_roundtrip = [&](const char* where, const pr::Manifest& m, const std::vector<std::uint8_t>& payload, const en::ChunkId& id) {
         // the node returns the payload
@@ -134,13 +155,55 @@ void exec_c11(const Plan& p, Ctx& ctx) {
             en::ChunkId id = make_id(static_cast<std::uint8_t>(uniq), 0xC1);
             id[3] = static_cast<std::uint8_t>(op.at(2)); id[2] = static_cast<std::uint8_t>(op.at(2) >> 8);
             ++uniq;
+            const Entry* again = pool_pick(op.at(3));
+            if (again) { id = again->id; ctx.boundary("restore_of_held_chunk"); }
             pr::Manifest m;
             rig.node.run([&](en::Node& n) { m = n.store_chunk(id, payload, seconds(op.at(1))); });
             if (payload.empty()) ctx.boundary("empty_payload");
-            check_roundtrip("stored", m, payload, id);
+            check_roundtrip(again ? "restored" : "stored", m, payload, id);
+            {
+                Entry fresh; fresh.id = id; fresh.payload = payload; fresh.deadline = wall_to_sim(m.expires_at);
+                if (Entry* e = pool_find(id)) *e = fresh; else pool.push_back(fresh);
+            }
+            recheck_all(again ? "restore" : "store");
             // the manifest survives its own codec
             try { const auto back = pr::decode_manifest(pr::encode_manifest(m)); if (back.chunk_hash != m.chunk_hash || back.nonce.bytes != m.nonce.bytes || back.shards.size() != m.shards.size()) ctx.violate("C11.manifest_codec", "manifest fields change across encode/decode"); } catch (...) { ctx.violate("C11.manifest_codec", "issued manifest does not re-decode"); }
             ctx.state(payload.size() % 97);
+            continue;
+        }
+        if (op.k == "forge") {
+            // a session peer announces a manifest for a chunk the node HOLDS, with fields that do not belong to the held bytes
+            Entry* victim = pool_pick(op.at(1));
+            if (!victim || sk::now_ns() + 10 * kSec >= victim->deadline) { ctx.probe("forge_without_victim"); continue; }
+            const int fpi = static_cast<int>(op.at(0)) % npeers;
+            RigPeer& fpeer = *rig.peers[static_cast<std::size_t>(fpi)];
+            const int variant = static_cast<int>(op.at(2));
+            sk::Rng g(static_cast<std::uint64_t>(op.at(3)) + 17);
+            pr::Manifest fm;
+            bool have = false;
+            rig.node.run([&](en::Node& n) { if (auto mm = n.manifest_for_chunk(victim->id)) { fm = *mm; have = true; } });
+            if (!have || variant == 0) {
+                // a self-consistent manifest of OTHER content under the same id (what another publisher of that id would issue)
+                const auto other = make_payload(victim->payload.size() + 1, 770000 + uniq++);
+                fm = pub->store_chunk(victim->id, other, seconds(3600));
+            } else if (variant == 1 && !fm.shards.empty()) fm.shards[g.below(fm.shards.size())].value[g.below(32)] ^= 0x20;
+            else if (variant == 2) fm.nonce.bytes[g.below(12)] ^= 0x10;
+            else if (variant == 3 && !fm.shards.empty()) { for (auto& sh : fm.shards) sh.value[0] ^= 0x01; }
+            else if (variant == 4) fm.chunk_hash[g.below(32)] ^= 0x40;
+            fm.expires_at = std::chrono::system_clock::time_point(std::chrono::nanoseconds(sk::kWallEpochNs + sk::now_ns() + 1800 * kSec));
+            std::string furi;
+            try { furi = pr::encode_manifest(fm); } catch (...) { continue; }
+            sk::sleep_ns(1100 * kMs);
+            pr::Message an{};
+            an.type = pr::MessageType::Announce;
+            pr::AnnouncePayload ap{};
+            ap.chunk_id = victim->id; ap.peer_id = fpeer.ident.id; ap.endpoint = ip_text(fpeer.actor.host) + ":46000"; ap.ttl = seconds(600); ap.manifest_uri = furi;
+            an.payload = ap;
+            if (!rig.send(fpi, an) || !rig.barrier(fpi)) { ctx.probe("session_lost"); rig.reconnect(fpi); consumed[static_cast<std::size_t>(fpi)] = fpeer.received.size(); continue; }
+            rig.drain(fpi);
+            consumed[static_cast<std::size_t>(fpi)] = fpeer.received.size();
+            ctx.boundary(std::string("forged_manifest_for_held_chunk_v") + std::to_string(variant));
+            recheck_all("forged_manifest_for_held_chunk");
             continue;
         }
         // ---- replica import over the wire
@@ -152,6 +215,9 @@ void exec_c11(const Plan& p, Ctx& ctx) {
         en::ChunkId id = make_id(static_cast<std::uint8_t>(uniq), 0xD1);
         id[1] = static_cast<std::uint8_t>(op.at(3));
         ++uniq;
+        Entry* already = (tamper != 9) ? pool_pick(op.at(5)) : nullptr;
+        if (already && sk::now_ns() + 10 * kSec >= already->deadline) already = nullptr;
+        if (already) { id = already->id; ctx.boundary("replica_for_held_chunk"); }
         pr::Manifest m = pub->store_chunk(id, payload, seconds(3600));
         std::vector<std::uint8_t> cipher = pub->chunk_store_.get_record(id)->data;
         sk::Rng g(static_cast<std::uint64_t>(op.at(3)) + 3);
@@ -220,6 +286,16 @@ void exec_c11(const Plan& p, Ctx& ctx) {
             auto it = n.dht_.table_.find(en::chunk_id_to_string(announce_id));
             if (it != n.dht_.table_.end()) for (auto& h : it->second.holders) if (h.id == kRigNode) self_provider = true;
         });
+        if (already) {
+            // the node held this id before: what it holds now must still be legitimate content - the old payload, or (only if the
+            // offered replica was intact) the offered one; never a mixture of old bytes and new key material or vice versa
+            if (may_accept) { already->alt = payload; already->has_alt = true; already->deadline = std::min(already->deadline, wall_to_sim(m.expires_at)); }
+            // (whether the node acknowledges is not judged here: it may legitimately measure the delivered bytes against the manifest it
+            // already trusts for the chunk rather than against the one just offered)
+            recheck_all(std::string(tamper ? "tampered" : "intact") + "_replica_for_held_chunk");
+            ctx.state(static_cast<std::uint64_t>(tamper) * 4 + 3 + 64);
+            continue;
+        }
         if (must_reject) {
             const std::string what = std::string("a replica with ") + tamper_name[tamper];
             if (held) ctx.violate(std::string("C11.tampered_replica_stored.") + tamper_name[tamper], what + " is held in the chunk store");
@@ -228,8 +304,13 @@ void exec_c11(const Plan& p, Ctx& ctx) {
             if (acks_yes) ctx.violate(std::string("C11.tampered_replica_acknowledged.") + tamper_name[tamper], what + " was acknowledged as accepted");
         } else if (may_accept) {
             if (acks_yes == 0 && acks_no > 0) ctx.probe("honest_replica_refused");
-            if (held && tamper == 0) { check_roundtrip("imported", m, payload, id); ctx.probe("honest_replica_imported"); }
+            if (held && tamper == 0) {
+                check_roundtrip("imported", m, payload, id); ctx.probe("honest_replica_imported");
+                Entry fresh; fresh.id = id; fresh.payload = payload; fresh.deadline = wall_to_sim(m.expires_at);
+                if (Entry* e = pool_find(id)) *e = fresh; else pool.push_back(fresh);
+            }
         }
+        recheck_all("replica_import");
         ctx.state(static_cast<std::uint64_t>(tamper) * 4 + (held ? 1 : 0) + (acks_yes ? 2 : 0));
     }
     rig.stop();
@@ -243,7 +324,7 @@ Scenario make_c11() {
     s.real_components = {"Node (store_chunk, fetch_chunk, export_chunk_record, handle_announce, handle_chunk, receive_chunk)", "SessionManager", "CryptoManager/ChaCha20, Shamir, Sha256", "main.cpp decrypt_chunk_with_manifest (through the wrapper translation unit)", "manifest and message codecs"};
     s.stub_components = {"OS seams (fibers, simulated TCP, clock, entropy)", "announcing peers are scripted; the publisher is a real Node without network"};
     s.assumptions = {"the reference cipher is RFC 8439 ChaCha20 with a 32-bit block counter starting at the little-endian value of the chunk id's first four bytes (what the statement calls 'the ChaCha20 encryption')"};
-    s.rule = "plan = shard threshold/total, 1..2 peers, network knobs + 3..12 operations (local store of a size/TTL, replica import intact or with one of 11 tamperings, optional duplicate CHUNK, reconnect); non-trivial = a tampered replica or an empty payload; distinct = plan hash";
+    s.rule = "plan = shard threshold/total, 1..2 peers, network knobs + 3..12 operations (local store of a size/TTL under a fresh id or re-store of an id already held, replica import intact or with one of 11 tamperings for a fresh id or for a held id, forged manifest (5 variants) announced for a held chunk, optional duplicate CHUNK, reconnect); after every operation every live chunk the node holds is fetched again and must be the payload last stored (or an intact replica offered for it); non-trivial = a tampered replica, a re-store, a replica or forged manifest for a held chunk, or an empty payload; distinct = plan hash";
     s.gen = gen_c11; s.exec = exec_c11; s.kernel_knobs = rig_knobs;
     s.quick_runs = 2500; s.thorough_runs = 150000; s.quick_secs = 50; s.thorough_secs = 900;
     return s;
